@@ -127,6 +127,21 @@ def run(prog, R):
             s = show(got[2][0]) if got is not None and got[0] == "adt" and got[2] else None
             R.ob("C05.2-prefix-op_kind", name, s == want, prog.body("oq3_syntax::ast::expr_ext::PrefixExpr::op_kind").at, f"{name} => {s}; expected {want}")
 
+    # ---- C05.4 postfix forms (call, index) bind tighter than prefix and binary operators: the operand handed to
+    # call_expr / index_expr / indexed_identifier / postfix_expr is never a completed PREFIX_EXPR or BIN_EXPR
+    # (node kinds of the CompletedMarker argument, collected by the abstract interpreter over all contexts)
+    LOOSE = {"PREFIX_EXPR", "BIN_EXPR", "ASSIGNMENT_STMT", "RANGE_EXPR"}
+    npost = 0
+    for (caller, callee), mask in sorted(G.cm_kinds.items()):
+        if not callee.endswith(("::call_expr", "::index_expr", "::indexed_identifier", "::postfix_expr")):
+            continue
+        npost += 1
+        names = {"?"} if mask < 0 else {G.allkinds.get(i, str(i)) for i in grammar_ai.bits(mask)}
+        bad = sorted(names & (LOOSE | {"?"}))
+        R.ob("C05.4-postfix-binds-tightest", f"{short(caller)}->{callee.split('::')[-1]}", not bad, prog.body(callee).at,
+             f"operand kinds: {sorted(names)[:6]}… ({len(names)})" if not bad else
+             f"a postfix form is applied to a completed {bad}: `-a[0]` / `-f(x)` would index or call the negated expression instead of negating the element / result")
+    R.floor("call edges into postfix forms", npost, 4)
     import roles
     roles.check(prog, R, "C05.3-ROLE-positional")
     # ---- C05.4 one node per application: a node opened around an already parsed operand (`lhs.precede(p)`: binary,
@@ -294,9 +309,12 @@ def run(prog, R):
     R.floor("AST accessor bodies compared", n, 280)
 
 
-def canonical_body(b):
-    """MIR of a body modulo local numbering and source positions (locals are renamed in order of first occurrence)."""
+def canonical_body(b, subst=None):
+    """MIR of a body modulo local numbering and source positions (locals are renamed in order of first occurrence).
+    subst: {bits string: placeholder} applied to char constants and switch case values (string constants are then
+    ignored) — used to compare sibling functions that differ only in one character constant."""
     ren = {}
+    subst = subst or {}
 
     def L(l):
         if l not in ren:
@@ -310,6 +328,9 @@ def canonical_body(b):
         k = op.get("k")
         if k in ("copy", "move"):
             return ("pl", P(op["pl"]))
+        if subst:
+            bits = subst.get(str(op.get("bits")), op.get("bits")) if op.get("ty") == "char" else op.get("bits")
+            return ("const", op.get("ty"), bits, None, op.get("fn") if not (op.get("fn") or "").endswith("{closure") else None, None, None)
         return ("const", op.get("ty"), op.get("bits"), op.get("str"), op.get("fn"), op.get("item"), json.dumps(op.get("value"), sort_keys=True) if "value" in op else None)
 
     out = [b.local_ty(0), b.nargs]
@@ -332,7 +353,7 @@ def canonical_body(b):
         if k == "call":
             row.append(("call", t.get("resolved") or t.get("callee"), json.dumps(t.get("rargs") or t.get("gargs"), sort_keys=True), tuple(O(a) for a in t["args"]), P(t["dest"]), t["target"]))
         elif k == "switch":
-            row.append(("switch", O(t["discr"]), tuple((c[0], c[1]) for c in t["cases"]), t["otherwise"]))
+            row.append(("switch", O(t["discr"]), tuple((subst.get(str(c[0]), c[0]) if t.get("ty") == "char" else c[0], c[1]) for c in t["cases"]), t["otherwise"]))
         elif k == "drop":
             row.append(("drop", P(t["pl"]), t["target"]))
         elif k == "assert":
